@@ -315,6 +315,44 @@ func ruleLoadRepair(c *Ctx) {
 	if n < 3 {
 		c.Undec(rule, "SaveRule sites", "at least 3", "", fmt.Sprint(n))
 	}
+	// every stored entry ends up served or queued for deletion: the callback returns only after it installed the rule
+	// or put the key on the list of keys to delete (a refused entry left in storage is refused again at every load,
+	// and a mis-keyed one comes back as a duplicate)
+	rulesF := P.Field(plc, "ruleConfig", "rules")
+	for _, cb := range load.AnonFuncs {
+		installs := false
+		for _, b := range cb.Blocks {
+			for _, ins := range b.Instrs {
+				if mu, ok := ins.(*ssa.MapUpdate); ok && isLoadOf(mu.Map, rulesF) {
+					installs = true
+				}
+			}
+		}
+		if !installs {
+			continue
+		}
+		installed := &calledEv{name: "rules[key] = rule", match: func(x ssa.Instruction) bool {
+			mu, ok := x.(*ssa.MapUpdate)
+			return ok && isLoadOf(mu.Map, rulesF)
+		}}
+		queued := &calledEv{name: "key queued for deletion", match: func(x ssa.Instruction) bool {
+			st, ok := x.(*ssa.Store)
+			if !ok {
+				return false
+			}
+			if _, isFV := st.Addr.(*ssa.FreeVar); !isFV {
+				return false
+			}
+			sl, isSl := st.Val.Type().Underlying().(*types.Slice)
+			if !isSl {
+				return false
+			}
+			bt, isB := sl.Elem().Underlying().(*types.Basic)
+			return isB && bt.Kind() == types.String
+		}}
+		c.need(rule, cb, "return of the load callback", func(x ssa.Instruction) bool { _, ok := x.(*ssa.Return); return ok }, []Ev{installed, queued}, anyOf,
+			"a stored entry is either installed or its key is queued for deletion")
+	}
 	// load errors and repair errors propagate
 	c.needOnSuccess(rule, load, []Ev{newSettledEv(load, "SaveRule", callMatcher(saveRule)), newSettledEv(load, "DeleteRule", callMatcher(delRule))}, all, "a failed repair write fails the load")
 	// repair order: the copy under the canonical key is written before any stale key is deleted, so a
